@@ -1,57 +1,109 @@
-//! Domain `monitor` (C14): probe version
+//! Domain `monitor` (C14): a real channel on a real Node; block histories over {funding,
+//! double-spend, mutual close, holder / counterparty commitment with 0-2 HTLCs, sweep, HTLC
+//! spend, second-level spend} are delivered to the channel's ChainMonitor
+//!   * `tracker`: through the node's ChainTracker (add_block / remove_block with compact
+//!     proofs, block_chunk + external proof for streamed adds), observing monitor::State and
+//!     the ListenSlot the tracker keeps for the channel;
+//!   * `direct`: through the ChainListener interface of the monitor (on_add_block /
+//!     on_remove_block / on_push + on_*_streamed_block_end), with the six lines of
+//!     notify_listeners_add / _remove replicated on a shadow slot (streamed removal cannot
+//!     be driven through the tracker).
+//! After every step the serde dump of the state, the watch / seen sets and the depth getters
+//! are recorded for the Coq model; independently the harness compares them with a fresh
+//! node that replays only the surviving chain (the property itself).  Every call that may
+//! panic runs under catch_unwind.
 use lightning_signer::bitcoin::absolute::LockTime;
 use lightning_signer::bitcoin::consensus::serialize;
-use lightning_signer::bitcoin::hashes::Hash;
+use lightning_signer::bitcoin::secp256k1::Secp256k1;
 use lightning_signer::bitcoin::transaction::Version;
 use lightning_signer::bitcoin::{
-    Amount, Block, OutPoint, ScriptBuf, Sequence, Transaction, TxIn, TxOut, Txid, Witness,
+    Amount, Block, BlockHash, OutPoint, ScriptBuf, Sequence, Transaction, TxIn, TxOut, Txid, Witness,
 };
 use lightning_signer::chain::tracker::{ChainListener, Headers};
-use lightning_signer::channel::{Channel, ChannelBase, ChannelId};
-use lightning_signer::node::{Node, SpendType};
+use lightning_signer::channel::Channel;
+use lightning_signer::lightning::types::payment::{PaymentHash, PaymentPreimage};
+use lightning_signer::monitor::ChainMonitor;
+use lightning_signer::node::{Node, RoutedPayment, SpendType};
 use lightning_signer::tx::tx::{CommitmentInfo2, HTLCInfo2};
 use lightning_signer::txoo::proof::{ProofType, TxoProof};
 use lightning_signer::util::test_utils::key::make_test_pubkey;
 use lightning_signer::util::test_utils::*;
-use serde_json::json;
+use serde_json::{json, Value};
+use std::collections::{BTreeMap, BTreeSet};
 use std::panic::{catch_unwind, AssertUnwindSafe};
 use std::sync::Arc;
 use vharness::*;
 
-fn spend(prev: OutPoint) -> TxIn {
-    TxIn {
-        previous_output: prev,
-        script_sig: ScriptBuf::new(),
-        sequence: Sequence::ZERO,
-        witness: Witness::default(),
+// ------------------------------------------------------------------ scenario
+
+#[derive(Clone, Debug)]
+struct HtlcSpec {
+    offered: bool, // offered by the broadcaster of the commitment
+    amount_sat: u64,
+    preimage_known: bool,
+}
+
+#[derive(Clone, Debug)]
+struct Scenario {
+    closer_cp: bool,
+    htlcs: Vec<HtlcSpec>,
+    our_output: bool,
+    no_info: bool, // malformed: the signer has no commitment info for the broadcast number
+}
+
+impl Scenario {
+    fn spendable(&self, h: &HtlcSpec) -> bool {
+        // get_spendable_htlc_indices: (offered, is_counterparty_tx)
+        match (h.offered, self.closer_cp) {
+            (true, true) | (false, false) => h.preimage_known,
+            _ => true,
+        }
+    }
+    fn label(&self) -> String {
+        format!(
+            "{}-{}-{}{}",
+            if self.closer_cp { "cp" } else { "holder" },
+            self.htlcs
+                .iter()
+                .map(|h| format!(
+                    "{}{}",
+                    if h.offered { "o" } else { "r" },
+                    if h.preimage_known { "p" } else { "" }
+                ))
+                .collect::<Vec<_>>()
+                .join(""),
+            if self.our_output { "our" } else { "noour" },
+            if self.no_info { "-noinfo" } else { "" }
+        )
     }
 }
 
-fn tx_spending(prevs: &[OutPoint], nout: usize, salt: u64) -> Transaction {
-    Transaction {
-        version: Version::TWO,
-        lock_time: LockTime::ZERO,
-        input: prevs.iter().map(|p| spend(*p)).collect(),
-        output: (0..nout)
-            .map(|i| TxOut {
-                value: Amount::from_sat(1000 + salt * 10 + i as u64),
-                script_pubkey: ScriptBuf::new(),
-            })
-            .collect(),
-    }
+fn payment(i: usize) -> (PaymentPreimage, PaymentHash) {
+    let pre = PaymentPreimage([(i + 1) as u8; 32]);
+    (pre, PaymentHash::from(pre))
 }
 
-struct Ctx {
+// ------------------------------------------------------------------ world: node + channel
+
+struct World {
     node_ctx: TestNodeContext,
     chan_ctx: TestChannelContext,
+    key: OutPoint,
     funding: Transaction,
-    funding_vout: u32,
+    commitment: Transaction,
+    h0: u32,
+    // blocks connected through the tracker, with the headers they were built on
+    stack: Vec<(Block, Headers)>,
 }
 
-fn make_ctx() -> Ctx {
+const FEERATE: u32 = 1000;
+const TO_HOLDER: u64 = 2_000_000;
+const TO_CP: u64 = 900_000;
+
+fn make_world(sc: &Scenario) -> World {
     let node_ctx = TestNodeContext {
         node: init_node(REGTEST_NODE_CONFIG, TEST_SEED[1]),
-        secp_ctx: lightning_signer::bitcoin::secp256k1::Secp256k1::signing_only(),
+        secp_ctx: Secp256k1::signing_only(),
     };
     let channel_amount = 3_000_000;
     let stype = SpendType::P2wpkh;
@@ -71,114 +123,1063 @@ fn make_ctx() -> Ctx {
     let (csig, hsigs) = counterparty_sign_holder_commitment(&node_ctx, &chan_ctx, &mut commit_tx_ctx);
     validate_holder_commitment(&node_ctx, &chan_ctx, &commit_tx_ctx, &csig, &hsigs)
         .expect("valid holder commitment");
+    // signing the funding transaction registers its inputs with the monitor and the tracker
     let witvec = tx_ctx.sign(&node_ctx, &tx).expect("witvec");
     tx_ctx.validate_sig(&node_ctx, &mut tx, &witvec);
-    Ctx { node_ctx, chan_ctx, funding: tx, funding_vout: outpoint_ndx }
+    let key = OutPoint { txid: tx.compute_txid(), vout: outpoint_ndx };
+
+    // the commitment transaction of this scenario, and the signer state that knows about it
+    let node = node_ctx.node.clone();
+    let mut offered = vec![];
+    let mut received = vec![];
+    for (i, h) in sc.htlcs.iter().enumerate() {
+        let (pre, hash) = payment(i);
+        let info = HTLCInfo2 { value_sat: h.amount_sat, payment_hash: hash, cltv_expiry: 100 + i as u32 };
+        if h.offered {
+            offered.push(info)
+        } else {
+            received.push(info)
+        }
+        if h.preimage_known {
+            let mut p = RoutedPayment::new();
+            p.preimage = Some(pre);
+            node.get_state().payments.insert(hash, p);
+        }
+    }
+    let to_holder = if sc.our_output { TO_HOLDER } else { 0 };
+    let commit_num = 1u64;
+    let commitment = if sc.closer_cp {
+        let point = make_test_pubkey(12);
+        let oic = Channel::htlcs_info2_to_oic(&offered, &received);
+        node.with_channel(&chan_ctx.channel_id, |chan| {
+            let ctx = chan.make_counterparty_commitment_tx(&point, commit_num, FEERATE, to_holder, TO_CP, oic.clone());
+            let next = if sc.no_info { commit_num + 4 } else { commit_num + 1 };
+            chan.enforcement_state.set_next_counterparty_commit_num_for_testing(next, point);
+            chan.enforcement_state.current_counterparty_commit_info = Some(CommitmentInfo2::new(
+                true,
+                to_holder,
+                TO_CP,
+                offered.clone(),
+                received.clone(),
+                FEERATE,
+            ));
+            Ok(ctx.trust().built_transaction().transaction.clone())
+        })
+        .expect("cp commitment")
+    } else {
+        let c = channel_commitment(&node_ctx, &chan_ctx, commit_num, FEERATE, to_holder, TO_CP, offered.clone(), received.clone());
+        let t = c.tx.as_ref().unwrap().trust().built_transaction().transaction.clone();
+        node.with_channel(&chan_ctx.channel_id, |chan| {
+            let next = if sc.no_info { commit_num + 4 } else { commit_num + 1 };
+            chan.enforcement_state.set_next_holder_commit_num_for_testing(next);
+            chan.enforcement_state.current_holder_commit_info = Some(CommitmentInfo2::new(
+                false,
+                TO_CP,
+                to_holder,
+                offered.clone(),
+                received.clone(),
+                FEERATE,
+            ));
+            Ok(())
+        })
+        .expect("holder commitment state");
+        t
+    };
+    let h0 = node.get_tracker().height();
+    World { node_ctx, chan_ctx, key, funding: tx, commitment, h0, stack: vec![] }
 }
 
-fn dump(node: &Node, key: &OutPoint) -> serde_json::Value {
-    let tracker = node.get_tracker();
-    let (mon, slot) = tracker.listeners.get(key).expect("listener");
-    let st = mon.get_state();
-    json!({
-        "state": serde_json::to_value(&*st).unwrap(),
-        "slot": serde_json::to_value(slot).unwrap(),
-        "theight": tracker.height(),
-    })
+// ------------------------------------------------------------------ the transactions of a scenario
+
+fn spend(prev: OutPoint) -> TxIn {
+    TxIn { previous_output: prev, script_sig: ScriptBuf::new(), sequence: Sequence::ZERO, witness: Witness::default() }
 }
 
-fn add_compact(node: &Node, txs: &[Transaction]) -> Block {
-    let mut tracker = node.get_tracker();
-    let mut all = vec![Transaction {
+fn tx_spending(prevs: &[OutPoint], nout: usize, salt: u64) -> Transaction {
+    Transaction {
+        version: Version::TWO,
+        lock_time: LockTime::ZERO,
+        input: prevs.iter().map(|p| spend(*p)).collect(),
+        output: (0..nout)
+            .map(|i| TxOut { value: Amount::from_sat(1000 + salt * 10 + i as u64), script_pubkey: ScriptBuf::new() })
+            .collect(),
+    }
+}
+
+#[derive(Clone)]
+struct ATx {
+    id: u64,
+    name: &'static str,
+    real: Transaction,
+    kind: String, // Coq close_kind
+}
+
+struct Universe {
+    txs: BTreeMap<u64, ATx>,
+    ids: BTreeMap<Txid, u64>,
+    cfg_coq: String,
+    finputs: Vec<OutPoint>,
+    n_spendable: usize,
+}
+
+const F: u64 = 10;
+const D1: u64 = 11;
+const D2: u64 = 12;
+const M: u64 = 20;
+const C: u64 = 21;
+const M2: u64 = 22; // malformed: a second spend of the funding outpoint
+const MM: u64 = 23; // malformed: a spend of the funding outpoint with two inputs
+const S: u64 = 30;
+const SC: u64 = 31;
+const S2: u64 = 32; // malformed: a second spend of our output
+const H0: u64 = 40; // + i
+const HB: u64 = 45;
+const NS: u64 = 46;
+const H0B: u64 = 47; // malformed: a second spend of HTLC output 0
+const X0: u64 = 50; // + i
+const XB0: u64 = 55; // + i
+const X0B: u64 = 59; // malformed: a second spend of the second-level output of H0
+const U: u64 = 60;
+
+impl Universe {
+    fn oid(&self, o: &OutPoint) -> (u64, u32) {
+        (*self.ids.get(&o.txid).unwrap_or_else(|| panic!("unknown txid {}", o.txid)), o.vout)
+    }
+    fn coq_op(&self, o: &OutPoint) -> String {
+        let (a, b) = self.oid(o);
+        format!("({}, {})", a, b)
+    }
+    fn coq_tx(&self, id: u64) -> String {
+        let t = &self.txs[&id];
+        let ins: Vec<String> = t.real.input.iter().map(|i| self.coq_op(&i.previous_output)).collect();
+        format!("mktx {} {} {} ({})", t.id, coq_list(&ins), t.real.output.len(), t.kind)
+    }
+    fn coq_block(&self, b: &[u64]) -> String {
+        coq_list(&b.iter().map(|i| format!("({})", self.coq_tx(*i))).collect::<Vec<_>>())
+    }
+}
+
+fn make_universe(sc: &Scenario, w: &World) -> Universe {
+    let mut txs = BTreeMap::new();
+    let mut ids = BTreeMap::new();
+    let fi: Vec<OutPoint> = w.funding.input.iter().map(|i| i.previous_output).collect();
+    ids.insert(fi[0].txid, 1u64);
+    ids.insert(fi[1].txid, 2u64);
+    let ext = Txid::from_raw_hash(lightning_signer::bitcoin::hashes::Hash::from_byte_array([0x33u8; 32]));
+    ids.insert(ext, 3u64);
+    let mut put = |id: u64, name: &'static str, real: Transaction, kind: String, ids: &mut BTreeMap<Txid, u64>| {
+        ids.insert(real.compute_txid(), id);
+        txs.insert(id, ATx { id, name, real, kind });
+    };
+    let nc = "NotCommitment".to_string();
+    put(F, "funding", w.funding.clone(), nc.clone(), &mut ids);
+    put(D1, "double-spend-1", tx_spending(&[fi[0]], 1, 1), nc.clone(), &mut ids);
+    put(D2, "double-spend-2", tx_spending(&[fi[1]], 1, 2), nc.clone(), &mut ids);
+    let fo = w.key;
+    put(M, "mutual-close", tx_spending(&[fo], 2, 3), nc.clone(), &mut ids);
+    put(M2, "second-close", tx_spending(&[fo], 1, 4), nc.clone(), &mut ids);
+    put(MM, "two-input-close", tx_spending(&[fo, OutPoint { txid: ext, vout: 7 }], 1, 5), nc.clone(), &mut ids);
+    put(U, "unrelated", tx_spending(&[OutPoint { txid: ext, vout: 0 }], 2, 6), nc.clone(), &mut ids);
+
+    // the commitment: what the oracle must answer, derived from how the scenario built it
+    let ctx = &w.commitment;
+    let ctxid = ctx.compute_txid();
+    let pos = |sat: u64| ctx.output.iter().position(|o| o.value.to_sat() == sat).map(|p| p as u32);
+    let our = if sc.our_output { pos(TO_HOLDER) } else { None };
+    let cpo = pos(TO_CP);
+    let mut spendable: Vec<u32> = vec![];
+    let mut unspendable: Vec<u32> = vec![];
+    for h in sc.htlcs.iter() {
+        let p = pos(h.amount_sat).expect("htlc output");
+        if sc.spendable(h) {
+            spendable.push(p)
+        } else {
+            unspendable.push(p)
+        }
+    }
+    spendable.sort();
+    // without commitment info the listener panics as soon as decode_commitment_tx reports a
+    // candidate HTLC output: any HTLC, or the counterparty's delayed output when its
+    // per-commitment point is unknown
+    let kind = if sc.no_info && (sc.closer_cp || !sc.htlcs.is_empty()) {
+        "CommitmentNoInfo".to_string()
+    } else {
+        format!(
+            "Commitment {} {}",
+            match our {
+                Some(i) => format!("(Some {})", i),
+                None => "None".to_string(),
+            },
+            coq_list(&spendable.iter().map(|i| i.to_string()).collect::<Vec<_>>())
+        )
+    };
+    put(C, "commitment", ctx.clone(), kind, &mut ids);
+    if let Some(i) = our {
+        put(S, "sweep-our", tx_spending(&[OutPoint { txid: ctxid, vout: i }], 1, 7), nc.clone(), &mut ids);
+        put(S2, "sweep-our-again", tx_spending(&[OutPoint { txid: ctxid, vout: i }], 1, 8), nc.clone(), &mut ids);
+    }
+    if let Some(i) = cpo {
+        put(SC, "sweep-cp", tx_spending(&[OutPoint { txid: ctxid, vout: i }], 1, 9), nc.clone(), &mut ids);
+    }
+    for (k, v) in spendable.iter().enumerate() {
+        let hin = OutPoint { txid: ctxid, vout: *v };
+        // the first HTLC spend has the HTLC as its second input, so the second-level outpoint is :1
+        let ins = if k == 0 { vec![OutPoint { txid: ext, vout: 5 }, hin] } else { vec![hin] };
+        let slo_vout = if k == 0 { 1 } else { 0 };
+        let h = tx_spending(&ins, 2, 10 + k as u64);
+        let hid = h.compute_txid();
+        put(H0 + k as u64, "htlc-spend", h, nc.clone(), &mut ids);
+        put(X0 + k as u64, "second-level-spend", tx_spending(&[OutPoint { txid: hid, vout: slo_vout }], 1, 20 + k as u64), nc.clone(), &mut ids);
+        if k == 0 {
+            put(H0B, "htlc-spend-again", tx_spending(&[hin], 1, 30), nc.clone(), &mut ids);
+            put(X0B, "second-level-spend-again", tx_spending(&[OutPoint { txid: hid, vout: slo_vout }], 1, 31), nc.clone(), &mut ids);
+        }
+    }
+    if spendable.len() >= 2 {
+        let ins: Vec<OutPoint> = spendable.iter().map(|v| OutPoint { txid: ctxid, vout: *v }).collect();
+        let hb = tx_spending(&ins, 2, 40);
+        let hbid = hb.compute_txid();
+        put(HB, "htlc-spend-both", hb, nc.clone(), &mut ids);
+        for k in 0..spendable.len() {
+            put(XB0 + k as u64, "second-level-spend", tx_spending(&[OutPoint { txid: hbid, vout: k as u32 }], 1, 41 + k as u64), nc.clone(), &mut ids);
+        }
+    }
+    if let Some(v) = unspendable.first() {
+        put(NS, "unspendable-htlc-spend", tx_spending(&[OutPoint { txid: ctxid, vout: *v }], 1, 50), nc.clone(), &mut ids);
+    }
+    let mut u = Universe { txs, ids, cfg_coq: String::new(), finputs: fi.clone(), n_spendable: spendable.len() };
+    let fin: Vec<String> = fi.iter().map(|o| u.coq_op(o)).collect();
+    u.cfg_coq = format!("mkcfg {} {} {}", F, w.key.vout, coq_list(&fin));
+    u
+}
+
+// ------------------------------------------------------------------ observation
+
+fn hexrev(s: &str) -> String {
+    let b = hex::decode(s).expect("hex");
+    hex::encode(b.iter().rev().cloned().collect::<Vec<u8>>())
+}
+
+struct Namer<'a> {
+    u: &'a Universe,
+}
+impl<'a> Namer<'a> {
+    fn txid(&self, s: &str) -> u64 {
+        for (t, id) in self.u.ids.iter() {
+            let d = t.to_string();
+            if d == s || hexrev(&d) == s {
+                return *id;
+            }
+        }
+        panic!("unknown txid string {}", s)
+    }
+    // "txid:vout" (state) or {"txid":..,"vout":..} (slot)
+    fn op(&self, v: &Value) -> (u64, u64) {
+        if let Some(s) = v.as_str() {
+            let mut it = s.split(':');
+            let t = it.next().unwrap();
+            let n: u64 = it.next().unwrap().parse().unwrap();
+            (self.txid(t), n)
+        } else {
+            (self.txid(v["txid"].as_str().unwrap()), v["vout"].as_u64().unwrap())
+        }
+    }
+}
+
+fn coq_opt<T: ToString>(v: Option<T>) -> String {
+    match v {
+        Some(x) => format!("(Some {})", x.to_string()),
+        None => "None".to_string(),
+    }
+}
+fn coq_on(v: &Value) -> String {
+    coq_opt(v.as_u64())
+}
+
+#[derive(Clone, PartialEq, Debug)]
+struct Obs {
+    coq: String,
+    // the same without saw_block, for the comparison with a fresh replay
+    view: Value,
+}
+
+fn observe(u: &Universe, state: &Value, watches: &Value, seen: &Value, depths: (u32, u32, u32), done: bool, init: &Value) -> Obs {
+    let nm = Namer { u };
+    // the registered funding data must never change
+    for k in ["funding_txids", "funding_vouts", "funding_inputs"] {
+        assert_eq!(state[k], init[k], "{} changed", k);
+    }
+    let fo = if state["funding_outpoint"].is_null() { None } else { Some(nm.op(&state["funding_outpoint"])) };
+    let clo = &state["closing_outpoints"];
+    let clo_coq = if clo.is_null() {
+        "None".to_string()
+    } else {
+        let our = if clo["our_output"].is_null() {
+            "None".to_string()
+        } else {
+            format!("(Some ({}, {}))", clo["our_output"][0].as_u64().unwrap(), clo["our_output"][1].as_bool().unwrap())
+        };
+        let ho = clo["htlc_outputs"].as_array().unwrap();
+        let hs = clo["htlc_spents"].as_array().unwrap();
+        assert_eq!(ho.len(), hs.len());
+        let hl: Vec<String> = ho.iter().zip(hs.iter()).map(|(a, b)| format!("({}, {})", a.as_u64().unwrap(), b.as_bool().unwrap())).collect();
+        let sl: Vec<String> = clo["second_level_htlc_outputs"]
+            .as_array()
+            .unwrap()
+            .iter()
+            .map(|e| {
+                let (a, b) = nm.op(&e["outpoint"]);
+                format!("(({}, {}), {})", a, b, e["spent"].as_bool().unwrap())
+            })
+            .collect();
+        format!("(Some ({}, {}, {}, {}))", nm.txid(clo["txid"].as_str().unwrap()), our, coq_list(&hl), coq_list(&sl))
+    };
+    let set = |v: &Value| -> Vec<(u64, u64)> {
+        let mut l: Vec<(u64, u64)> = v.as_array().unwrap().iter().map(|e| nm.op(e)).collect();
+        l.sort();
+        l
+    };
+    let w = set(watches);
+    let sn = set(seen);
+    let cl = |l: &Vec<(u64, u64)>| coq_list(&l.iter().map(|(a, b)| format!("({}, {})", a, b)).collect::<Vec<_>>());
+    let st = format!(
+        "({}, {}, {}, {}, {}, {}, {}, {}, {}, {})",
+        state["height"].as_u64().unwrap(),
+        coq_on(&state["funding_height"]),
+        coq_opt(fo.map(|(a, b)| format!("({}, {})", a, b))),
+        coq_on(&state["funding_double_spent_height"]),
+        coq_on(&state["mutual_closing_height"]),
+        coq_on(&state["unilateral_closing_height"]),
+        clo_coq,
+        coq_on(&state["closing_swept_height"]),
+        coq_on(&state["our_output_swept_height"]),
+        state["saw_block"].as_bool().unwrap()
+    );
+    let coq = format!("(Some ({}, {}, {}, ({}, {}, {}), {}))", st, cl(&w), cl(&sn), depths.0, depths.1, depths.2, done);
+    let mut sv = state.clone();
+    sv.as_object_mut().unwrap().remove("saw_block");
+    let view = json!({"state": sv, "watches": w, "seen": sn, "depths": [depths.0, depths.1, depths.2], "done": done});
+    Obs { coq, view }
+}
+
+// ------------------------------------------------------------------ drivers
+
+#[derive(Clone, Copy, PartialEq, Debug)]
+enum Outcome {
+    Done,
+    Panicked,
+    Rejected, // the tracker refused the block (Err): nothing was delivered to the monitor
+}
+
+#[derive(Clone, Copy, PartialEq, Debug)]
+enum Mode {
+    Compact,
+    Streamed,
+}
+
+fn coinbase(h: u32) -> Transaction {
+    Transaction {
         version: Version::non_standard(0),
-        lock_time: LockTime::from_consensus(tracker.height() + 1),
+        lock_time: LockTime::from_consensus(h),
         input: vec![],
         output: vec![TxOut { value: Amount::ZERO, script_pubkey: ScriptBuf::new() }],
-    }];
-    all.extend_from_slice(txs);
-    let block = make_block(tracker.tip().0, all);
-    let proof = TxoProof::prove_unchecked(&block, &tracker.tip().1, tracker.height() + 1);
-    tracker.add_block(block.header, proof).expect("add_block");
-    block
+    }
 }
 
-fn remove_compact(node: &Node, block: &Block, prev: &Headers) {
-    let mut tracker = node.get_tracker();
-    let proof = TxoProof::prove_unchecked(block, &prev.1, tracker.height());
-    tracker.remove_block(proof, prev.clone()).expect("remove_block");
+struct Driver {
+    w: World,
+    direct: bool,
+    // direct mode: the monitor and the shadow of its ListenSlot
+    mon: ChainMonitor,
+    watches: BTreeSet<OutPoint>,
+    seen: BTreeSet<OutPoint>,
+    dstack: Vec<(Vec<Transaction>, BlockHash)>,
+    init: Value,
+    forgot: bool,
 }
 
-fn probe() {
-    let ctx = make_ctx();
-    let node = ctx.node_ctx.node.clone();
-    let key = OutPoint { txid: ctx.funding.compute_txid(), vout: ctx.funding_vout };
-    println!("init {}", dump(&node, &key));
-    let prev0 = node.get_tracker().tip().clone();
-    let b1 = add_compact(&node, &[ctx.funding.clone()]);
-    println!("after funding {}", dump(&node, &key));
+impl Driver {
+    fn new(sc: &Scenario, direct: bool, forgot: bool) -> Driver {
+        let w = make_world(sc);
+        let (mon, watches, seen, init) = {
+            let tracker = w.node_ctx.node.get_tracker();
+            let (m, slot) = tracker.listeners.get(&w.key).expect("listener");
+            let init = serde_json::to_value(&*m.get_state()).unwrap();
+            (m.clone(), slot.watches.iter().cloned().collect(), slot.seen.iter().cloned().collect(), init)
+        };
+        if forgot {
+            mon.as_base().forget_channel();
+        }
+        Driver { w, direct, mon, watches, seen, dstack: vec![], init, forgot }
+    }
 
-    // holder commitment with one offered HTLC
-    let hash = lightning_signer::lightning::types::payment::PaymentHash([7u8; 32]);
-    let offered = vec![HTLCInfo2 { value_sat: 10_000, payment_hash: hash, cltv_expiry: 100 }];
-    let commit_num = 1;
-    let c = channel_commitment(&ctx.node_ctx, &ctx.chan_ctx, commit_num, 1000, 2_000_000, 980_000, offered.clone(), vec![]);
-    let ctx_tx = c.tx.as_ref().unwrap().trust().built_transaction().transaction.clone();
-    node.with_channel(&ctx.chan_ctx.channel_id, |chan| {
-        chan.enforcement_state.set_next_holder_commit_num_for_testing(commit_num + 1);
-        chan.enforcement_state.current_holder_commit_info =
-            Some(CommitmentInfo2::new(false, 980_000, 2_000_000, offered.clone(), vec![], 1000));
-        Ok(())
-    })
-    .unwrap();
-    println!("commitment tx: {:?}", ctx_tx);
-    let prev1 = node.get_tracker().tip().clone();
-    let b2 = add_compact(&node, &[ctx_tx.clone()]);
-    let d2 = dump(&node, &key);
-    println!("after commitment {}", d2);
-    let co = d2["state"]["closing_outpoints"].clone();
-    let ctxid = ctx_tx.compute_txid();
-    let htlc_vout = co["htlc_outputs"][0].as_u64().unwrap() as u32;
-    let our_vout = co["our_output"][0].as_u64().unwrap() as u32;
-    let htx = tx_spending(&[OutPoint { txid: ctxid, vout: htlc_vout }], 1, 1);
-    let prev2 = node.get_tracker().tip().clone();
-    let b3 = add_compact(&node, &[htx.clone()]);
-    println!("after htlc tx {}", dump(&node, &key));
-    remove_compact(&node, &b3, &prev2);
-    println!("after removing htlc tx block {}", dump(&node, &key));
-    println!("EXPECT equal to after-commitment: {}", dump(&node, &key) == d2);
-    // second level
-    let b3 = add_compact(&node, &[htx.clone()]);
-    let d3 = dump(&node, &key);
-    let prev3 = node.get_tracker().tip().clone();
-    let x = tx_spending(&[OutPoint { txid: htx.compute_txid(), vout: 0 }], 1, 2);
-    let b4 = add_compact(&node, &[x.clone()]);
-    println!("after second-level {}", dump(&node, &key));
-    remove_compact(&node, &b4, &prev3);
-    println!("after removing second-level block {}", dump(&node, &key));
-    println!("EXPECT equal to d3: {}", dump(&node, &key) == d3);
-    // close + sweep in one block
-    remove_compact(&node, &b3, &prev2);
-    remove_compact(&node, &b2, &prev1);
-    let sweep = tx_spending(&[OutPoint { txid: ctxid, vout: our_vout }], 1, 3);
-    let before = dump(&node, &key);
-    let r = catch_unwind(AssertUnwindSafe(|| {
-        let b = add_compact(&node, &[ctx_tx.clone(), sweep.clone()]);
-        println!("after close+sweep {}", dump(&node, &key));
-        remove_compact(&node, &b, &prev1);
-        println!("after removing close+sweep {}", dump(&node, &key));
-    }));
-    println!("close+sweep add/remove panicked: {}", r.is_err());
-    let _ = (b1, prev0, before);
+    fn obs(&self, u: &Universe) -> Obs {
+        let node = &self.w.node_ctx.node;
+        let depths = (self.mon.funding_depth(), self.mon.funding_double_spent_depth(), self.mon.closing_depth());
+        let done = self.mon.is_done();
+        let st = serde_json::to_value(&*self.mon.get_state()).unwrap();
+        if self.direct {
+            let wv = serde_json::to_value(self.watches.iter().collect::<Vec<_>>()).unwrap();
+            let sv = serde_json::to_value(self.seen.iter().collect::<Vec<_>>()).unwrap();
+            let fix = |v: Value| -> Value {
+                // OutPoint's own serde prints "txid:vout" strings
+                v
+            };
+            observe(u, &st, &fix(wv), &fix(sv), depths, done, &self.init)
+        } else {
+            let tracker = node.get_tracker();
+            let (_, slot) = tracker.listeners.get(&self.w.key).expect("listener");
+            let sl = serde_json::to_value(slot).unwrap();
+            observe(u, &st, &sl["watches"], &sl["seen"], depths, done, &self.init)
+        }
+    }
+
+    fn push_block(&self, txs: &[Transaction], hash: &BlockHash, header: Option<&lightning_signer::bitcoin::block::Header>, with_start: bool) {
+        self.mon.on_push(|l| {
+            if with_start {
+                l.on_block_start(header.expect("header"));
+            }
+            for t in txs {
+                l.on_transaction_start(t.version.0);
+                for i in t.input.iter() {
+                    l.on_transaction_input(i);
+                }
+                for o in t.output.iter() {
+                    l.on_transaction_output(o);
+                }
+                l.on_transaction_end(t.lock_time, t.compute_txid());
+            }
+            l.on_block_end();
+        });
+        let _ = hash;
+    }
+
+    fn add(&mut self, txs: &[Transaction], mode: Mode) -> Outcome {
+        if self.direct {
+            let h = self.w.h0 + self.dstack.len() as u32 + 1;
+            let mut all = vec![coinbase(h)];
+            all.extend_from_slice(txs);
+            let prev = self.w.node_ctx.node.get_tracker().tip().0;
+            let block = make_block(prev, all.clone());
+            let hash = block.block_hash();
+            let mon = self.mon.clone();
+            let r = catch_unwind(AssertUnwindSafe(|| match mode {
+                Mode::Compact => mon.on_add_block(&all, &hash),
+                Mode::Streamed => {
+                    self.push_block(&all, &hash, Some(&block.header), true);
+                    mon.on_add_streamed_block_end(&hash)
+                }
+            }));
+            match r {
+                Ok((adds, removes)) => {
+                    // notify_listeners_add
+                    self.watches.extend(adds);
+                    for o in removes.iter() {
+                        self.watches.remove(o);
+                    }
+                    self.seen.extend(removes);
+                    self.dstack.push((all, hash));
+                    Outcome::Done
+                }
+                Err(_) => Outcome::Panicked,
+            }
+        } else {
+            let node = self.w.node_ctx.node.clone();
+            let r = catch_unwind(AssertUnwindSafe(|| {
+                let mut tracker = node.get_tracker();
+                let mut all = vec![coinbase(tracker.height() + 1)];
+                all.extend_from_slice(txs);
+                let prev = tracker.tip().clone();
+                let block = make_block(prev.0, all);
+                let proof = TxoProof::prove_unchecked(&block, &prev.1, tracker.height() + 1);
+                let r = match mode {
+                    Mode::Compact => tracker.add_block(block.header, proof),
+                    Mode::Streamed => {
+                        let proof = TxoProof { attestations: proof.attestations, proof: ProofType::ExternalBlock() };
+                        let bytes = serialize(&block);
+                        tracker.block_chunk(block.block_hash(), 0, &bytes).expect("block_chunk");
+                        tracker.add_block(block.header, proof)
+                    }
+                };
+                (block, prev, r.is_ok())
+            }));
+            match r {
+                Ok((b, p, true)) => {
+                    self.w.stack.push((b, p));
+                    Outcome::Done
+                }
+                Ok((_, _, false)) => Outcome::Rejected,
+                Err(_) => Outcome::Panicked,
+            }
+        }
+    }
+
+    fn remove(&mut self, mode: Mode) -> Outcome {
+        if self.direct {
+            let (all, hash) = self.dstack.pop().expect("nothing to remove");
+            let mon = self.mon.clone();
+            let prev = self.w.node_ctx.node.get_tracker().tip().0;
+            let header = make_block(prev, all.clone()).header;
+            let r = catch_unwind(AssertUnwindSafe(|| match mode {
+                Mode::Compact => mon.on_remove_block(&all, &hash),
+                Mode::Streamed => {
+                    self.push_block(&all, &hash, Some(&header), true);
+                    mon.on_remove_streamed_block_end(&hash)
+                }
+            }));
+            match r {
+                Ok((adds, removes)) => {
+                    // notify_listeners_remove
+                    for o in removes.iter() {
+                        self.seen.remove(o);
+                    }
+                    self.watches.extend(removes);
+                    for o in adds.iter() {
+                        self.watches.remove(o);
+                    }
+                    Outcome::Done
+                }
+                Err(_) => Outcome::Panicked,
+            }
+        } else {
+            let (block, prev) = self.w.stack.pop().expect("nothing to remove");
+            let node = self.w.node_ctx.node.clone();
+            let r = catch_unwind(AssertUnwindSafe(|| {
+                let mut tracker = node.get_tracker();
+                let proof = TxoProof::prove_unchecked(&block, &prev.1, tracker.height());
+                let proof = if mode == Mode::Streamed && std::env::var("C14_TRY_STREAMED_REMOVE").is_ok() {
+                    let bytes = serialize(&block);
+                    tracker.block_chunk(block.block_hash(), 0, &bytes).expect("block_chunk");
+                    TxoProof { attestations: proof.attestations, proof: ProofType::ExternalBlock() }
+                } else {
+                    proof
+                };
+                let r = tracker.remove_block(proof, prev.clone());
+                if let Err(e) = &r {
+                    eprintln!("remove_block refused: {:?}", e);
+                }
+                r.is_ok()
+            }));
+            match r {
+                Ok(true) => Outcome::Done,
+                Ok(false) => Outcome::Rejected,
+                Err(_) => Outcome::Panicked,
+            }
+        }
+    }
+
+    /// push events without a block start, then the streamed block end (direct mode only)
+    fn partial(&mut self, txs: &[Transaction], add: bool) -> Outcome {
+        assert!(self.direct);
+        let hash = make_block(self.w.node_ctx.node.get_tracker().tip().0, vec![coinbase(77)]).block_hash();
+        let mon = self.mon.clone();
+        let r = catch_unwind(AssertUnwindSafe(|| {
+            self.push_block(txs, &hash, None, false);
+            if add {
+                mon.on_add_streamed_block_end(&hash)
+            } else {
+                mon.on_remove_streamed_block_end(&hash)
+            }
+        }));
+        match r {
+            Ok((a, rm)) => {
+                assert!(a.is_empty() && rm.is_empty(), "a partial stream produced watch changes");
+                Outcome::Done
+            }
+            Err(_) => Outcome::Panicked,
+        }
+    }
+}
+
+// ------------------------------------------------------------------ cases
+
+#[derive(Clone, Debug)]
+enum Step {
+    Add(Vec<u64>, Mode),
+    Remove(Mode),
+    PartialAdd(Vec<u64>),
+    PartialRemove(Vec<u64>),
+}
+
+struct CaseOut {
+    coq: String,
+    json: Value,
+    nontrivial: bool,
+    aborted: bool,
+    monitor_violation: Option<Value>,
+}
+
+fn run_case(sc: &Scenario, u: &Universe, steps: &[Step], direct: bool, forgot: bool, admissible: bool, origin: &str) -> CaseOut {
+    let mut d = Driver::new(sc, direct, forgot);
+    let h0 = d.w.h0;
+    let mut chain: Vec<Vec<u64>> = vec![];
+    let mut coq_steps = vec![];
+    let mut coq_obs = vec![];
+    let mut jsteps = vec![];
+    let mut aborted = false;
+    let mut violation = None;
+    let mut n_removes = 0;
+    let mut max_depth = 0usize;
+    let mut cur_depth = 0usize;
+    let mut rejected = 0u64;
+    let real = |b: &Vec<u64>| -> Vec<Transaction> { b.iter().map(|i| u.txs[i].real.clone()).collect() };
+    for st in steps {
+        let ok = match st {
+            Step::Add(b, mode) => {
+                coq_steps.push(format!("SAdd {}", u.coq_block(b)));
+                jsteps.push(json!({"add": b.iter().map(|i| u.txs[i].name).collect::<Vec<_>>(), "ids": b, "mode": format!("{:?}", mode)}));
+                let ok = d.add(&real(b), *mode);
+                chain.push(b.clone());
+                cur_depth = 0;
+                ok
+            }
+            Step::Remove(mode) => {
+                if chain.is_empty() {
+                    // only after the tracker rejected a block of a malformed history
+                    assert!(!admissible);
+                    continue;
+                }
+                let b = chain.pop().expect("remove on empty chain");
+                coq_steps.push(format!("SRemove {}", u.coq_block(&b)));
+                jsteps.push(json!({"remove": b.iter().map(|i| u.txs[i].name).collect::<Vec<_>>(), "ids": b, "mode": format!("{:?}", mode)}));
+                n_removes += 1;
+                cur_depth += 1;
+                max_depth = max_depth.max(cur_depth);
+                d.remove(*mode)
+            }
+            Step::PartialAdd(b) => {
+                coq_steps.push("SAddPartial".to_string());
+                jsteps.push(json!({"partial_add": b}));
+                d.partial(&real(b), true)
+            }
+            Step::PartialRemove(b) => {
+                coq_steps.push("SRemovePartial".to_string());
+                jsteps.push(json!({"partial_remove": b}));
+                d.partial(&real(b), false)
+            }
+        };
+        if ok == Outcome::Rejected && admissible {
+            eprintln!("harness error: the tracker refused a block of an admissible history");
+            std::process::exit(3);
+        }
+        if ok == Outcome::Rejected {
+            // malformed stream only: the tracker refused the block (TXOO validation rejects a
+            // child that precedes its parent, and what follows such a refusal is C13's
+            // subject); the case ends before this step
+            coq_steps.pop();
+            jsteps.pop();
+            rejected += 1;
+            break;
+        }
+        if ok == Outcome::Rejected {
+            // the tracker refused the block before any listener saw it (only in the malformed
+            // stream: TXOO validation rejects a child that precedes its parent); not a step
+            assert!(!admissible, "the tracker rejected a block of an admissible history");
+            chain.pop();
+            coq_steps.pop();
+            jsteps.pop();
+            rejected += 1;
+            continue;
+        }
+        if ok == Outcome::Panicked {
+            coq_obs.push("None".to_string());
+            aborted = true;
+            if admissible && violation.is_none() {
+                violation = Some(json!({
+                    "what": "processing an admissible block history panicked",
+                    "step": jsteps.len() - 1,
+                }));
+            }
+            break;
+        }
+        let o = d.obs(u);
+        coq_obs.push(o.coq.clone());
+        // the property itself: after a disconnection the view must be the one of a fresh
+        // monitor that connected only the surviving chain
+        if admissible && matches!(st, Step::Remove(_)) && violation.is_none() {
+            let mut f = Driver::new(sc, direct, forgot);
+            let mut fok = true;
+            for b in chain.iter() {
+                fok &= f.add(&real(b), Mode::Compact) == Outcome::Done;
+            }
+            if !fok {
+                violation = Some(json!({"what": "the fresh replay of the surviving chain panicked", "step": jsteps.len() - 1}));
+            } else {
+                let fo = f.obs(u);
+                if fo.view != o.view {
+                    violation = Some(json!({
+                        "what": "after a disconnection the channel's view differs from a fresh replay of the surviving best chain",
+                        "step": jsteps.len() - 1,
+                        "view": o.view,
+                        "fresh_replay_view": fo.view,
+                    }));
+                }
+            }
+        }
+    }
+    let coq = format!(
+        "(({}, {}, {}), {}, {}, {})",
+        u.cfg_coq,
+        h0,
+        coq_bool(forgot),
+        coq_list(&coq_steps.iter().map(|s| format!("({})", s)).collect::<Vec<_>>()),
+        coq_bool(admissible),
+        coq_list(&coq_obs)
+    );
+    let json = json!({
+        "scenario": sc.label(),
+        "origin": origin,
+        "driver": if direct { "direct" } else { "tracker" },
+        "admissible": admissible,
+        "forgot": forgot,
+        "steps": jsteps,
+        "aborted": aborted,
+        "removes": n_removes,
+        "max_reorg_depth": max_depth,
+        "rejected_by_tracker": rejected,
+    });
+    CaseOut { coq, json, nontrivial: n_removes > 0 && chain.len() + n_removes >= 2, aborted, monitor_violation: violation }
+}
+
+// ------------------------------------------------------------------ generators
+
+fn scenarios() -> Vec<Scenario> {
+    let h = |o: bool, a: u64, p: bool| HtlcSpec { offered: o, amount_sat: a, preimage_known: p };
+    let mut v = vec![];
+    for closer_cp in [false, true] {
+        v.push(Scenario { closer_cp, htlcs: vec![], our_output: true, no_info: false });
+        v.push(Scenario { closer_cp, htlcs: vec![h(true, 10_000, closer_cp)], our_output: true, no_info: false });
+        v.push(Scenario { closer_cp, htlcs: vec![h(true, 10_000, true), h(false, 12_000, true)], our_output: true, no_info: false });
+        v.push(Scenario { closer_cp, htlcs: vec![h(true, 10_000, false), h(false, 12_000, false)], our_output: true, no_info: false });
+        v.push(Scenario { closer_cp, htlcs: vec![h(!closer_cp, 11_000, false)], our_output: false, no_info: false });
+        v.push(Scenario { closer_cp, htlcs: vec![], our_output: false, no_info: false });
+    }
+    v
+}
+
+/// all the ways to cut `seq` into at most `maxb` consecutive non-empty blocks
+fn groupings(seq: &[u64], maxb: usize) -> Vec<Vec<Vec<u64>>> {
+    let n = seq.len();
+    let mut out = vec![];
+    for mask in 0u32..(1 << (n - 1)) {
+        if mask.count_ones() as usize + 1 > maxb {
+            continue;
+        }
+        let mut blocks = vec![vec![seq[0]]];
+        for i in 1..n {
+            if mask & (1 << (i - 1)) != 0 {
+                blocks.push(vec![]);
+            }
+            blocks.last_mut().unwrap().push(seq[i]);
+        }
+        out.push(blocks);
+    }
+    out
+}
+
+fn canonical_sequences(u: &Universe) -> Vec<Vec<u64>> {
+    let has = |i: u64| u.txs.contains_key(&i);
+    let mut v: Vec<Vec<u64>> = vec![vec![F, M], vec![D1, D2], vec![F, C]];
+    if has(S) {
+        v.push(vec![F, C, S]);
+        v.push(vec![C, S]);
+    }
+    if u.n_spendable >= 1 {
+        v.push(vec![F, C, H0, X0]);
+        v.push(vec![C, H0, X0]);
+        if has(S) {
+            v.push(vec![F, C, S, H0, X0]);
+            v.push(vec![C, H0, S, X0]);
+        }
+    }
+    if u.n_spendable >= 2 {
+        v.push(vec![C, H0, H0 + 1, X0 + 1, X0]);
+        v.push(vec![C, HB, XB0, XB0 + 1]);
+        if has(S) {
+            v.push(vec![C, HB, S, XB0 + 1, XB0]);
+        }
+    }
+    if has(NS) {
+        v.push(vec![C, NS]);
+    }
+    if has(SC) {
+        v.push(vec![F, C, SC]);
+    }
+    v
+}
+
+/// does `t` fit on top of `chain` + `blk` (parents present, nothing spent twice)?
+fn fits(u: &Universe, chain: &[Vec<u64>], blk: &[u64], t: u64) -> bool {
+    let present: Vec<u64> = chain.iter().flatten().cloned().chain(blk.iter().cloned()).collect();
+    if present.contains(&t) {
+        return false;
+    }
+    let tx = &u.txs[&t];
+    let mut spent: BTreeSet<OutPoint> = BTreeSet::new();
+    for p in present.iter() {
+        for i in u.txs[p].real.input.iter() {
+            spent.insert(i.previous_output);
+        }
+    }
+    for i in tx.real.input.iter() {
+        if spent.contains(&i.previous_output) {
+            return false;
+        }
+        let pid = u.ids[&i.previous_output.txid];
+        if pid >= 10 && !present.contains(&pid) {
+            return false;
+        }
+    }
+    true
+}
+
+fn random_history(rng: &mut Rng, u: &Universe, len: usize, malformed: bool) -> Vec<Step> {
+    let mut chain: Vec<Vec<u64>> = vec![];
+    let mut steps = vec![];
+    let all: Vec<u64> = u.txs.keys().cloned().collect();
+    let progress = [F, C, S, H0, H0 + 1, X0, X0 + 1, HB, XB0, XB0 + 1, M, D1];
+    let bad = [M2, MM, S2, H0B, X0B];
+    let mut removed_run = 0;
+    for _ in 0..len {
+        let mode = if rng.chance(1, 3) { Mode::Streamed } else { Mode::Compact };
+        if !chain.is_empty() && removed_run < 4 && rng.chance(2, 5) {
+            chain.pop();
+            removed_run += 1;
+            steps.push(Step::Remove(mode));
+            continue;
+        }
+        removed_run = 0;
+        let want = *rng.pick(&[0usize, 1, 1, 1, 2, 2, 3, 4]);
+        let mut blk = vec![];
+        for _ in 0..want {
+            let mut cands: Vec<u64> = all.iter().cloned().filter(|t| !bad.contains(t) && fits(u, &chain, &blk, *t)).collect();
+            if malformed && rng.chance(1, 2) {
+                // anything goes: conflicting spends, children before parents
+                cands = all.iter().cloned().filter(|t| !chain.iter().flatten().any(|x| x == t) && !blk.contains(t)).collect();
+            }
+            if cands.is_empty() {
+                break;
+            }
+            let pr: Vec<u64> = cands.iter().cloned().filter(|t| progress.contains(t)).collect();
+            let t = if !pr.is_empty() && rng.chance(3, 4) { *rng.pick(&pr) } else { *rng.pick(&cands) };
+            blk.push(t);
+        }
+        chain.push(blk.clone());
+        steps.push(Step::Add(blk, mode));
+    }
+    steps
+}
+
+fn emit_case(c: &CaseOut, stats: &mut BTreeMap<String, u64>) {
+    let mut j = c.json.clone();
+    j["coq"] = json!(c.coq);
+    j["nontrivial"] = json!(c.nontrivial);
+    if let Some(v) = &c.monitor_violation {
+        j["monitor_violation"] = v.clone();
+    }
+    *stats.entry("cases".into()).or_default() += 1;
+    if c.aborted {
+        *stats.entry("aborted".into()).or_default() += 1;
+    }
+    if c.monitor_violation.is_some() {
+        *stats.entry("monitor_violations".into()).or_default() += 1;
+    }
+    *stats.entry(format!("driver_{}", c.json["driver"].as_str().unwrap())).or_default() += 1;
+    *stats.entry(format!("steps")).or_default() += c.json["steps"].as_array().unwrap().len() as u64;
+    *stats.entry(format!("removes")).or_default() += c.json["removes"].as_u64().unwrap();
+    *stats.entry(format!("reorg_depth_{}", c.json["max_reorg_depth"])).or_default() += 1;
+    emit("CASE", j);
+}
+
+/// systematic part: every grouping of the canonical sequences into <= 4 blocks, then a reorg
+/// of depth d (remove d blocks, connect them again, possibly merged into one block)
+fn systematic(args: &Args) {
+    let mut rng = Rng::new(args.seed ^ 0x5157);
+    let mut stats = BTreeMap::new();
+    let quick = args.tier == "quick";
+    let mut budget = args.n;
+    let scs = scenarios();
+    let mut plans: Vec<(usize, Vec<Step>, String)> = vec![];
+    for (si, sc) in scs.iter().enumerate() {
+        let w = make_world(sc);
+        let u = make_universe(sc, &w);
+        for seq in canonical_sequences(&u) {
+            // a prefix that is delivered one transaction per block, so that the grouped part starts anywhere
+            let pre: Vec<u64> = if seq[0] == C { vec![F] } else { vec![] };
+            for g in groupings(&seq, 4) {
+                for d in 1..=g.len().min(4) {
+                    for merged in [false, true] {
+                        if merged && d < 2 {
+                            continue;
+                        }
+                        let mut steps = vec![];
+                        for t in pre.iter() {
+                            steps.push(Step::Add(vec![*t], Mode::Compact));
+                        }
+                        for b in g.iter() {
+                            steps.push(Step::Add(b.clone(), Mode::Compact));
+                        }
+                        for _ in 0..d {
+                            steps.push(Step::Remove(Mode::Compact));
+                        }
+                        let tail: Vec<Vec<u64>> = g[g.len() - d..].to_vec();
+                        if merged {
+                            steps.push(Step::Add(tail.concat(), Mode::Compact));
+                        } else {
+                            for b in tail {
+                                steps.push(Step::Add(b, Mode::Compact));
+                            }
+                        }
+                        plans.push((si, steps, format!("grouping {:?} reorg {}{}", g, d, if merged { " merged" } else { "" })));
+                    }
+                }
+            }
+        }
+    }
+    let total = plans.len();
+    // quick: a seeded sample, always including the smallest close+sweep plans; thorough: all
+    let mut chosen: Vec<usize> = (0..total).collect();
+    if quick && total > budget {
+        let mut keep: Vec<usize> = vec![];
+        for (i, p) in plans.iter().enumerate() {
+            if p.2.starts_with("grouping [[21, 30]] reorg 1") || p.2.starts_with("grouping [[21, 40, 50]] reorg 1") {
+                keep.push(i);
+            }
+        }
+        while keep.len() < budget {
+            let i = rng.below(total as u64) as usize;
+            if !keep.contains(&i) {
+                keep.push(i);
+            }
+        }
+        chosen = keep;
+    }
+    budget = chosen.len();
+    let mut unis: BTreeMap<usize, Universe> = BTreeMap::new();
+    for (k, i) in chosen.iter().enumerate() {
+        let (si, steps, origin) = &plans[*i];
+        let sc = &scs[*si];
+        if !unis.contains_key(si) {
+            let w = make_world(sc);
+            unis.insert(*si, make_universe(sc, &w));
+        }
+        let u = &unis[si];
+        // alternate drivers and delivery modes deterministically
+        let direct = k % 3 == 2;
+        let steps: Vec<Step> = steps
+            .iter()
+            .enumerate()
+            .map(|(j, s)| {
+                let streamed = (k + j) % 4 == 1;
+                match s {
+                    Step::Add(b, _) => Step::Add(b.clone(), if streamed { Mode::Streamed } else { Mode::Compact }),
+                    Step::Remove(_) => Step::Remove(if streamed && direct { Mode::Streamed } else { Mode::Compact }),
+                    o => o.clone(),
+                }
+            })
+            .collect();
+        let c = run_case(sc, u, &steps, direct, false, true, origin);
+        emit_case(&c, &mut stats);
+    }
+    stats.insert("plans_total".into(), total as u64);
+    stats.insert("plans_run".into(), budget as u64);
+    emit("STATS", json!({"domain": "monitor-systematic", "stats": stats}));
+}
+
+fn random(args: &Args, malformed: bool) {
+    let mut rng = Rng::new(args.seed ^ if malformed { 0xBAD } else { 0x600D });
+    let mut stats = BTreeMap::new();
+    let scs = scenarios();
+    let mut unis: BTreeMap<usize, Universe> = BTreeMap::new();
+    for k in 0..args.n {
+        let si = rng.below(scs.len() as u64) as usize;
+        let mut sc = scs[si].clone();
+        let key = if malformed && rng.chance(1, 6) {
+            sc.no_info = true;
+            si + 100
+        } else {
+            si
+        };
+        if !unis.contains_key(&key) {
+            let w = make_world(&sc);
+            unis.insert(key, make_universe(&sc, &w));
+        }
+        let u = &unis[&key];
+        let direct = rng.chance(1, 3);
+        let len = 3 + rng.below(8) as usize;
+        let mut steps = random_history(&mut rng, u, len, malformed);
+        if !direct && std::env::var("C14_TRY_STREAMED_REMOVE").is_err() {
+            // streamed removal is only possible through the listener interface
+            steps = steps
+                .into_iter()
+                .map(|s| match s {
+                    Step::Remove(_) => Step::Remove(Mode::Compact),
+                    o => o,
+                })
+                .collect();
+        }
+        if malformed && direct && rng.chance(1, 3) {
+            // a monitor created in the middle of a stream: events without a block start
+            let b = vec![F];
+            steps.insert(0, if rng.chance(1, 2) { Step::PartialAdd(b) } else { Step::PartialRemove(b) });
+        }
+        let forgot = rng.chance(1, 4);
+        let c = run_case(&sc, u, &steps, direct, forgot, !malformed, if malformed { "random-malformed" } else { "random" });
+        emit_case(&c, &mut stats);
+        let _ = k;
+    }
+    emit("STATS", json!({"domain": if malformed { "monitor-malformed" } else { "monitor-random" }, "stats": stats}));
+}
+
+/// burial: is_done flips exactly MIN_DEPTH blocks after the event and flips back on a disconnection
+fn burial(args: &Args) {
+    let mut stats = BTreeMap::new();
+    let scs = scenarios();
+    let sc = &scs[0];
+    let w = make_world(sc);
+    let u = make_universe(sc, &w);
+    let plans: Vec<(&str, Vec<Vec<u64>>)> = vec![
+        ("mutual", vec![vec![F], vec![M]]),
+        ("double-spend", vec![vec![D1]]),
+        ("swept", vec![vec![F], vec![C, S]]),
+    ];
+    for (k, (name, pre)) in plans.iter().enumerate().take(args.n.max(1)) {
+        let mut steps: Vec<Step> = pre.iter().map(|b| Step::Add(b.clone(), Mode::Compact)).collect();
+        for _ in 0..98 {
+            steps.push(Step::Add(vec![], Mode::Compact));
+        }
+        steps.push(Step::Add(vec![], Mode::Compact)); // depth 100
+        steps.push(Step::Remove(Mode::Compact)); // depth 99 again
+        steps.push(Step::Add(vec![U], Mode::Compact));
+        steps.push(Step::Add(vec![], Mode::Compact));
+        let c = run_case(sc, &u, &steps, k % 2 == 1, true, true, &format!("burial-{}", name));
+        emit_case(&c, &mut stats);
+    }
+    emit("STATS", json!({"domain": "monitor-burial", "stats": stats}));
 }
 
 fn main() {
+    // one line per panic (most are the observations we are after), no backtraces
+    std::panic::set_hook(Box::new(|info| {
+        let loc = info.location().map(|l| format!("{}:{}", l.file(), l.line())).unwrap_or_default();
+        let msg = info
+            .payload()
+            .downcast_ref::<&str>()
+            .map(|s| s.to_string())
+            .or_else(|| info.payload().downcast_ref::<String>().cloned())
+            .unwrap_or_default();
+        eprintln!("panic at {}: {}", loc, msg);
+    }));
     let argv: Vec<String> = std::env::args().skip(1).collect();
     let sub = argv.get(0).cloned().unwrap_or_default();
-    let _args = parse_args(&argv[1.min(argv.len())..]);
+    let args = parse_args(&argv[1.min(argv.len())..]);
     match sub.as_str() {
-        "probe" => probe(),
+        "systematic" => systematic(&args),
+        "random" => random(&args, false),
+        "malformed" => random(&args, true),
+        "burial" => burial(&args),
         _ => {
-            eprintln!("usage: monitor probe");
+            eprintln!("usage: monitor systematic|random|malformed|burial --seed S --n N --tier T");
             std::process::exit(2);
         }
     }
